@@ -53,6 +53,9 @@ func guard(f func() (string, int, error)) (o obsCall) {
 // observeAll fills rec.Obs.  Printers and the encoder only apply to a returned expression.
 func observeAll(rec *ParseRec) {
 	obs := map[string]any{}
+	if rec.Outcome == "hang" {
+		return // the renderers would hang as well
+	}
 	q, df := rec.Q, rec.DF
 	echoed = len(markerRE.FindAllStringIndex(q, -1))
 	defer func() { echoed = 0 }()
